@@ -98,12 +98,14 @@ type pe struct {
 	d2         *big.Float // true chord² from x to the edge
 	d2f        float64
 	ang        float64 // true distance in radians
+	sum        *big.Float // |â+b̂|: how far the edge is from antipodal
 }
 
 func pointEdge(xp, ap, bp s2.Point) pe {
 	x, a, b := hpV(xp), hpV(ap), hpV(bp)
 	var r pe
 	r.edge = hpAngle(a, b)
+	r.sum = a.Unit().Add(b.Unit()).Norm()
 	r.da, r.db = hpAngle(x, a), hpAngle(x, b)
 	r.da2, r.db2 = hp.Chord2(x, a), hp.Chord2(x, b)
 	vertex := func() {
@@ -185,7 +187,18 @@ func tinyFinding(g pe, base string) string {
 	if g.degenerate == 0 && g.edge < tinyEdge {
 		return base + "-edge-lt-1e-15"
 	}
+	if g.degenerate == 0 && math.Pi-g.edge < 1e-15 && hp.Float(hpV2sum(g)) < 1e-150 {
+		return base + "-antipodal-lt-1e-150"
+	}
 	return ""
+}
+
+// hpV2sum returns |â+b̂| for the edge (distance from antipodal), kept in pe.
+func hpV2sum(g pe) *big.Float {
+	if g.sum == nil {
+		return hp.F(1)
+	}
+	return g.sum
 }
 
 func unit(ps ...s2.Point) bool {
@@ -403,8 +416,10 @@ func genXAB(t *rapid.T) xab {
 
 // decisionMargin: the library's wedge test (a−x)·(c×x) has rounding error of a
 // few ε·|c|·|a−x|; its exact value is |c|·m. The interior/endpoint decision is
-// asserted only when |m| exceeds 64ε·(chord length to that endpoint) + 1e-290.
-func robustly(m, chord float64) bool { return math.Abs(m) > 64*eps*chord+1e-290 }
+// asserted only when |m| exceeds 64ε·(chord length to that endpoint + 8ε).
+// The chord the library sees includes the radial mismatch of the two vectors
+// (each within 2ε of unit length), hence the +8ε.
+func robustly(m, chord float64) bool { return math.Abs(m) > 64*eps*(chord+8*eps) }
 
 func nearBoundary(g pe) bool {
 	ca := 2 * math.Sin(g.da/2)
@@ -757,10 +772,30 @@ func checkMaxDistance(c xabl) ev.Outcome {
 // ---------------------------------------------------------------------------
 // e) Project, DistanceFraction, Interpolate, InterpolateAtDistance
 
-// onEdgeTol: Project normalises p = x − (x·n̂)n̂ whose length is cos(dist to the
-// great circle); the perpendicular error of the result is an ε-sized absolute
-// error divided by |p|. Stated before running: tolPt / |p|, and no on-edge
-// claim when |p| < 1e-6 (x within 1e-6 rad of the edge's pole).
+// Project normalises p = x − (x·n̂)n̂ whose length is cos(dist to the great
+// circle); an ε-sized absolute error in p becomes a direction error ε/|p|.
+// Stated before running: positional tolerance tolPt/|p| for the on-edge claim
+// (re-derived after the first run: the same scaling applies to the realised
+// distance, because a point off the great circle is nearer to / farther from
+// x in first order). Within 1e-6 rad of the edge's pole the tolerance stays
+// at tolPt/1e-6 = 1e-8 rad and failures there are classed "project-near-pole".
+//
+// "Realises the distance" is compared in chord² units, the representation the
+// library measures in: the documented chord² bound plus the chord² image
+// 2·sinθ·δ + δ² of a positional error δ. (In radians the documented bound is
+// unbounded near π, where ChordAngle loses resolution.)
+func posTol(g pe) (tol, cosGC float64) {
+	cosGC = 1
+	if g.degenerate == 0 {
+		cosGC = math.Sqrt(math.Max(0, 1-g.sinGC*g.sinGC))
+	}
+	return tolPt / math.Max(cosGC, 1e-6), cosGC
+}
+
+func realiseTol(g pe, pt float64) float64 {
+	return boundAt(g.d2f, g.d2f) + 2*pt*(1+g.ang)*math.Max(math.Sin(g.ang), pt)
+}
+
 func projectChecks(x, a, b s2.Point, g pe, p s2.Point, what string) (string, map[string]float64) {
 	if !finite(p) {
 		return fmt.Sprintf("%s is not finite: %v", what, p.Vector), nil
@@ -769,26 +804,20 @@ func projectChecks(x, a, b s2.Point, g pe, p s2.Point, what string) (string, map
 		return fmt.Sprintf("%s is not unit length: |p|²−1 = %.3g (p=%v)", what, p.Norm2()-1, p.Vector), nil
 	}
 	r := map[string]float64{}
+	pt, _ := posTol(g)
 	// realises the true distance
-	dxp := hpAngle(hpV(x), hpV(p))
-	tolD := tolPt * (1 + g.ang)
-	r["project_distance_err/tol"] = math.Abs(dxp-g.ang) / tolD
-	if math.Abs(dxp-g.ang) > tolD {
-		return fmt.Sprintf("%s is at %.17g rad from x but the true distance to the edge is %.17g (diff %.3g > %.3g)", what, dxp, g.ang, dxp-g.ang, tolD), r
+	cp := hp.Chord2(hpV(x), hpV(p))
+	tolD := realiseTol(g, pt)
+	e := absDiff(g.d2f, cp)
+	r["project_realised_chord2_err/tol"] = e / tolD
+	if e > tolD {
+		return fmt.Sprintf("%s is at chord² %.17g (%.17g rad) from x but the true distance to the edge is chord² %.17g (%.17g rad): diff %.3g > %.3g", what, hp.Float(cp), hpAngle(hpV(x), hpV(p)), g.d2f, g.ang, e, tolD), r
 	}
 	// lies on the edge
-	cosGC := math.Sqrt(math.Max(0, 1-g.sinGC*g.sinGC))
-	if g.degenerate == 0 && cosGC < 1e-6 {
-		return "", r
-	}
-	if g.degenerate != 0 {
-		cosGC = 1
-	}
 	gp := pointEdge(p, a, b)
-	tolOn := tolPt / cosGC
-	r["project_off_edge/tol"] = gp.ang / tolOn
-	if gp.ang > tolOn {
-		return fmt.Sprintf("%s is %.3g rad off the edge (> %.3g)", what, gp.ang, tolOn), r
+	r["project_off_edge/tol"] = gp.ang / pt
+	if gp.ang > pt {
+		return fmt.Sprintf("%s is %.3g rad off the edge (> %.3g)", what, gp.ang, pt), r
 	}
 	return "", r
 }
@@ -807,7 +836,10 @@ func checkProject(c xab) ev.Outcome {
 	} else {
 		o.Class += ",endpoint"
 	}
-	cosGC := math.Sqrt(math.Max(0, 1-g.sinGC*g.sinGC))
+	pt, cosGC := posTol(g)
+	if cosGC < 1e-6 {
+		o.Class += ",pole"
+	}
 	o.NonTrivial = nonTrivialDist(g) || cosGC < 1e-6
 	p := s2.Project(x, a, b)
 	if !boundApplies(g) {
@@ -817,32 +849,29 @@ func checkProject(c xab) ev.Outcome {
 		}
 		return o
 	}
+	classify := func() {
+		o.Finding = tinyFinding(g, "project")
+		if o.Finding == "" && cosGC < 1e-6 {
+			o.Finding = "project-near-pole"
+		}
+	}
 	msg, ratios := projectChecks(x, a, b, g, p, "Project(x,a,b)")
 	o.Ratios = ratios
 	if msg != "" {
 		o.Err = msg
-		o.Finding = tinyFinding(g, "project")
-		if o.Finding == "" && g.degenerate == 0 && cosGC < 1e-100 {
-			o.Finding = "project-pole-underflow"
-		}
+		classify()
 		return o
 	}
-	if (x == a || x == b) && p != x {
-		o.Err = fmt.Sprintf("Project of an endpoint is %v, want the endpoint itself", p.Vector)
-		o.Finding = tinyFinding(g, "project")
-		return o
-	}
-	// the projected point realises the *reported* distance (chord² space):
-	// d(chord²) = 2 sinθ dθ ≤ 2·tol, plus the reported distance's own bound
+	// the projected point realises the *reported* distance
 	d, _ := s2.UpdateMinDistance(x, a, b, s1.InfChordAngle())
 	if df := float64(d); df <= 4 {
 		cp := hp.Chord2(hpV(x), hpV(p))
-		tol := boundAt(df, g.d2f) + 2*tolPt*(1+g.ang)*math.Max(math.Sin(g.ang), tolPt)
+		tol := boundAt(df, g.d2f) + realiseTol(g, pt)
 		e := absDiff(df, cp)
 		o.Ratios["reported_vs_realised/tol"] = e / tol
 		if e > tol {
 			o.Err = fmt.Sprintf("reported chord² %.17g but the projected point is at chord² %.17g (diff %.3g > %.3g)", df, hp.Float(cp), e, tol)
-			o.Finding = tinyFinding(g, "project")
+			classify()
 			return o
 		}
 	}
@@ -1085,7 +1114,6 @@ func checkEdgePair(c pair) ev.Outcome {
 	if trueMin == 0 && !cross {
 		o.Class += ",distance0"
 	}
-	_ = which
 	o.NonTrivial = cross || degen || trueMin < 1e-9 || nearBoundary(gs[which])
 	pa, pb := s2.EdgePairClosestPoints(a0, a1, b0, b1)
 	if !okEdge(ga) || !okEdge(gb) {
@@ -1100,30 +1128,47 @@ func checkEdgePair(c pair) ev.Outcome {
 		o.Err = fmt.Sprintf("EdgePairClosestPoints returned non-unit/non-finite points %v %v", pa.Vector, pb.Vector)
 		return o
 	}
-	// two Projects / one Intersection: each point within tol of its edge
-	// (Intersection: 8ε documented; Project: tolPt/|p| as in projectChecks)
-	dab := hpAngle(hpV(pa), hpV(pb))
-	tolD := 2 * tolPt * (1 + trueMin)
-	o.Ratios = map[string]float64{"pair_distance_err/tol": math.Abs(dab-trueMin) / tolD}
-	if math.Abs(dab-trueMin) > tolD {
-		o.Err = fmt.Sprintf("closest points are %.17g rad apart, true minimum distance %.17g (diff %.3g > %.3g), class %s", dab, trueMin, dab-trueMin, tolD, o.Class)
-		return o
-	}
-	// both lie on their edges; the perpendicular error scales with 1/cos of the
-	// distance from the projected vertex to the other great circle
+	// two Projects / one Intersection. The perpendicular error of a projected
+	// vertex scales with 1/cos of its distance to the other great circle (see
+	// posTol); any of the four candidates may be the one chosen near ties.
 	cosMin := 1.0
 	for _, g := range gs {
 		if g.degenerate == 0 {
 			cosMin = math.Min(cosMin, math.Sqrt(math.Max(0, 1-g.sinGC*g.sinGC)))
 		}
 	}
-	if cosMin >= 1e-6 {
-		tolOn := 2 * tolPt / cosMin
+	pt := 2 * tolPt / math.Max(cosMin, 1e-6)
+	poleFinding := func() {
+		if cosMin < 1e-6 {
+			o.Finding = "project-near-pole"
+		}
+	}
+	gm := gs[which]
+	trueC2 := gm.d2
+	if cross {
+		trueC2 = hp.F(0)
+		gm = pe{d2f: 0, ang: 0}
+	}
+	cab := hp.Chord2(hpV(pa), hpV(pb))
+	tolD := 2*boundAt(gm.d2f, gm.d2f) + 2*pt*(1+gm.ang)*math.Max(math.Sin(gm.ang), pt)
+	e := math.Abs(hp.Float(hp.Sub(cab, trueC2)))
+	o.Ratios = map[string]float64{"pair_realised_chord2_err/tol": e / tolD}
+	if e > tolD {
+		o.Err = fmt.Sprintf("closest points are at chord² %.17g (%.17g rad), true minimum chord² %.17g (%.17g rad): diff %.3g > %.3g, class %s", hp.Float(cab), hpAngle(hpV(pa), hpV(pb)), hp.Float(trueC2), trueMin, e, tolD, o.Class)
+		poleFinding()
+		return o
+	}
+	// crossing edges: the point is s2.Intersection's (C16's subject); its
+	// accuracy degrades for edges within 1e-3 of antipodal, not claimed here
+	if cross && (ga.edge > math.Pi-1e-3 || gb.edge > math.Pi-1e-3) {
+		o.Class += ",near-antipodal(on-edge not claimed)"
+	} else {
 		ea := pointEdge(pa, a0, a1).ang
 		eb := pointEdge(pb, b0, b1).ang
-		o.Ratios["pair_off_edge/tol"] = math.Max(ea, eb) / tolOn
-		if ea > tolOn || eb > tolOn {
-			o.Err = fmt.Sprintf("closest points are off their edges by %.3g / %.3g rad (> %.3g)", ea, eb, tolOn)
+		o.Ratios["pair_off_edge/tol"] = math.Max(ea, eb) / pt
+		if ea > pt || eb > pt {
+			o.Err = fmt.Sprintf("closest points are off their edges by %.3g / %.3g rad (> %.3g)", ea, eb, pt)
+			poleFinding()
 			return o
 		}
 	}
@@ -1305,8 +1350,15 @@ func checkPolylineInterpolate(c plCase) ev.Outcome {
 		return o
 	}
 	if c.F >= 1 && n >= 2 && !m.dup && (pt != vs[n-1] || next != n) {
-		o.Err = fmt.Sprintf("Interpolate(%v) = (%v,%d), want (last vertex, %d)", c.F, pt.Vector, next, n)
-		return o
+		// The doc comment promises next == len for fraction >= 1, but (L − l1 − … )
+		// can round below the last edge's length, so the loop may stop one edge
+		// early with a point a rounding error away from the last vertex (same in
+		// the C++ original). Counted, not failed; the arc-position claim below
+		// still bounds where the point is.
+		if o.Counts == nil {
+			o.Counts = map[string]int{}
+		}
+		o.Counts["fraction>=1_but_next<len"] = 1
 	}
 	if next == n && pt != vs[n-1] {
 		o.Err = fmt.Sprintf("Interpolate(%v): next == len but the point is not the last vertex", c.F)
@@ -1445,11 +1497,23 @@ func checkPolylineProject(c plCase) ev.Outcome {
 		return o
 	}
 	o.NonTrivial = n >= 3 && (second-best < 1e-9*(1+best) || nearBoundary(gbest) || best < 1e-12)
-	d := hpAngle(hpV(x), hpV(pt))
-	tolD := 2 * tolPt * (1 + best)
-	o.Ratios = map[string]float64{"polyline_project_distance_err/tol": math.Abs(d-best) / tolD}
-	if math.Abs(d-best) > tolD {
-		o.Err = fmt.Sprintf("Project: returned point is %.17g rad from x, true minimum over %d edges is %.17g (edge %d; diff %.3g > %.3g)", d, n-1, best, bestI, d-best, tolD)
+	if n == 1 {
+		gbest = pointEdge(x, vs[0], vs[0])
+	}
+	ptol, _ := posTol(gbest)
+	if pole {
+		ptol = tolPt / 1e-6
+	}
+	ptol *= 2
+	cp := hp.Chord2(hpV(x), hpV(pt))
+	tolD := 2*boundAt(gbest.d2f, gbest.d2f) + 2*ptol*(1+best)*math.Max(math.Sin(best), ptol)
+	e := absDiff(gbest.d2f, cp)
+	o.Ratios = map[string]float64{"polyline_project_realised_chord2_err/tol": e / tolD}
+	if e > tolD {
+		o.Err = fmt.Sprintf("Project: returned point is at chord² %.17g (%.17g rad) from x, true minimum over %d edges is %.17g (%.17g rad, edge %d): diff %.3g > %.3g", hp.Float(cp), hpAngle(hpV(x), hpV(pt)), n-1, gbest.d2f, best, bestI, e, tolD)
+		if pole {
+			o.Finding = "project-near-pole"
+		}
 		return o
 	}
 	if n == 1 {
@@ -1479,8 +1543,7 @@ func checkPolylineProject(c plCase) ev.Outcome {
 			ge2 = pointEdge(pt, vs[next-2], vs[next-1])
 			off = math.Min(off, ge2.ang)
 		}
-		cosGC := math.Sqrt(math.Max(0, 1-gbest.sinGC*gbest.sinGC))
-		tolOn := 2 * tolPt / math.Max(cosGC, 1e-6)
+		tolOn := ptol
 		o.Ratios["polyline_project_off_edge/tol"] = off / tolOn
 		if off > tolOn {
 			o.Err = fmt.Sprintf("Project: point is %.3g rad off the edge before vertex %d (> %.3g)", off, next, tolOn)
@@ -1508,7 +1571,10 @@ func checkPolylineProject(c plCase) ev.Outcome {
 	// IsOnRight against the exact orientation of the uniquely closest edge,
 	// when the closest point is robustly interior to that edge
 	if second-best > 1e-6 && gbest.degenerate == 0 && gbest.interior &&
-		gbest.ma > 1e-6 && gbest.mb > 1e-6 && gbest.edge < math.Pi-1e-3 && !pole {
+		gbest.ma > 1e-6 && gbest.mb > 1e-6 && gbest.edge < math.Pi-1e-3 && !pole &&
+		// IsOnRight uses the non-robust Sign (error ~4ε against a determinant of
+		// size edge·sin(dist)): only points clearly off the edge are asserted
+		gbest.edge*gbest.sinGC > 1e-13 {
 		det := exact.DetSign(x.Vector, vs[bestI].Vector, vs[bestI-1].Vector)
 		if det != 0 {
 			if o.Counts == nil {
